@@ -34,7 +34,9 @@ def operator_case(rep, rng, mesh, mi, with_model):
     from tdgl.solver.options import SparseSolver
     em = mesh.edge_mesh
     n, E = len(mesh.sites), len(em.edges)
-    A = np.array([[rng.gauss(0, 1), rng.gauss(0, 1)] for _ in range(E)])
+    # potentials of any strength: O(1), very weak (link phases ~1e-9 ... 1e-12) and strong
+    Ascale = [1.0, 1.0, 1e-9, 30.0, 1e-12, 1.0][mi % 6]
+    A = np.array([[rng.gauss(0, 1), rng.gauss(0, 1)] for _ in range(E)]) * Ascale
     chi = np.array([rng.uniform(-3, 3) for _ in range(n)])
     dchi = chi[em.edges[:, 1]] - chi[em.edges[:, 0]]
     d = em.directions
@@ -46,19 +48,31 @@ def operator_case(rep, rng, mesh, mi, with_model):
     ops2 = MeshOperators(mesh, SparseSolver.SUPERLU, fixed_sites=fixed, fix_psi=True)
     ops2.set_link_exponents(A2)
     psi = np.array([complex(rng.gauss(0, 1), rng.gauss(0, 1)) for _ in range(n)])
+    if Ascale < 1e-6:
+        psi = np.ones(n, dtype=complex) * np.exp(0.7j)     # uniform: the supercurrent is then the response to A alone
     g = np.exp(1j * chi)
     psi2 = g * psi
-    case = {"mesh": mi, "sites": n, "edges": E, "pinned": int(len(fixed))}
+    case = {"mesh": mi, "sites": n, "edges": E, "pinned": int(len(fixed)), "potential_scale": Ascale}
     L1, L2 = ops1.psi_laplacian @ psi, ops2.psi_laplacian @ psi2
-    sc = float(np.max(np.abs(L1)) + 1e-300)
+    pm = float(np.max(np.abs(psi)))
+    sc = float(np.max(np.abs(L1))) + 1e-6 * float(abs(ops1.psi_laplacian).max()) * pm + 1e-300      # rounding floor
     if np.max(np.abs(L2 - g * L1)) > 1e-9 * sc:
         rep.violation("covariant Laplacian does not transform covariantly", case)
     G1, G2 = ops1.psi_gradient @ psi, ops2.psi_gradient @ psi2
-    if np.max(np.abs(G2 - g[em.edges[:, 0]] * G1)) > 1e-9 * float(np.max(np.abs(G1)) + 1e-300):
+    if np.max(np.abs(G2 - g[em.edges[:, 0]] * G1)) > 1e-9 * (float(np.max(np.abs(G1))) + 1e-6 * float(abs(ops1.psi_gradient).max()) * pm + 1e-300):
         rep.violation("covariant gradient does not transform covariantly", case)
     J1, J2 = ops1.get_supercurrent(psi), ops2.get_supercurrent(psi2)
-    if np.max(np.abs(J1 - J2)) > 1e-9 * float(np.max(np.abs(J1)) + 1e-300):
-        rep.violation("supercurrent changed under a gauge transformation", case)
+    # rounding: J is the imaginary part of a difference of O(|psi|^2) numbers divided by the edge length
+    jtol = 1e-9 * float(np.max(np.abs(J1))) + 1e-13 * float(np.max(np.abs(psi)) ** 2 / np.min(em.edge_lengths))
+    if np.max(np.abs(J1 - J2)) > jtol:
+        rep.violation("supercurrent changed under a gauge transformation", {**case, "max_abs_diff": float(np.max(np.abs(J1 - J2)))})
+    if Ascale < 1e-6:
+        # uniform psi: J on every edge is -|psi|^2 * (A . e_ij) / |e_ij| to first order, whatever the gauge
+        lin = -np.einsum("ij,ij->i", A, d) / em.edge_lengths
+        for nm_, Jx in (("original gauge", J1), ("transformed gauge", J2)):
+            if np.max(np.abs(Jx - lin)) > 1e-6 * float(np.max(np.abs(lin))) + 1e-13 / float(np.min(em.edge_lengths)):
+                rep.violation(f"very weak potential: the supercurrent response in the {nm_} is not -|psi|^2 A.e/|e| "
+                              f"(max |J| = {float(np.max(np.abs(Jx))):.3e}, expected {float(np.max(np.abs(lin))):.3e})", case)
     rep.count(1)
     rep.nontrivial(("op", n, len(fixed) > 0))
     if not with_model:
